@@ -58,7 +58,7 @@ func (x *Run) intrinsic(fr *Frame, st *State, fn *ssa.Function, args []Val, site
 		switch name {
 		case "ResetEvents":
 			return single(st, unit), true
-		case "Called", "CalledWith", "CalledBefore", "CallCount", "Sent", "SentOn", "ClosedEv", "Recovered", "CalledInIter", "CalledWithInIter",
+		case "Called", "CalledWith", "CalledBefore", "CallCount", "CallCountWith", "CallCountWith2", "Sent", "SentOn", "ClosedEv", "Recovered", "CalledInIter", "CalledWithInIter",
 			"RetInt", "RetErr", "RetBool", "RetStr", "Ret", "NthArg", "NthRet", "NetDelta",
 			"IterArg", "IterRet", "HandlerName", "FreshInIter":
 			return single(st, x.freshVal(st, "trace", fn.Signature.Results().At(0).Type())), true
@@ -294,6 +294,34 @@ func (x *Run) intrinsic(fr *Frame, st *State, fn *ssa.Function, args []Val, site
 			}
 		}
 		return single(st, Val{T: fmt.Sprint(n), S: SInt, Ty: types.Typ[types.Int]}), true
+	case "CallCountWith", "CallCountWith2":
+		s, _ := x.litString(args[0].T)
+		var terms []string
+		for _, e := range st.events {
+			if !evNameMatch(e.Name, s) {
+				continue
+			}
+			var conds []string
+			okEv := true
+			for k := 1; k+1 < len(args); k += 2 {
+				idx, _ := litInt(args[k].T)
+				if idx >= len(e.Args) || e.Args[idx].S != args[k+1].S {
+					okEv = false
+					break
+				}
+				conds = append(conds, eq(e.Args[idx].T, args[k+1].T))
+			}
+			if okEv {
+				terms = append(terms, ite(and(conds...), "1", "0"))
+			}
+		}
+		t := "0"
+		if len(terms) == 1 {
+			t = terms[0]
+		} else if len(terms) > 1 {
+			t = "(+ " + strings.Join(terms, " ") + ")"
+		}
+		return single(st, Val{T: t, S: SInt, Ty: types.Typ[types.Int]}), true
 	case "CalledWith":
 		// CalledWith("name", i, v): some matching call had argument i equal to v
 		s, _ := x.litString(args[0].T)
